@@ -30,7 +30,7 @@ RULE = ("generated phase fields (ramps, quadratics, Gaussian bumps, band-limited
 TRUSTED = ["torch tensor indexing / roll / where / argsort / stack semantics (exercised, not verified)",
            "IEEE rounding: inputs are dyadic multiples of pi kept >= 2^-6*pi from the +-pi thresholds; offsets are float32 in the code, exact integers in the model",
            "_pixel_reliability only determines the merge order, which is an input of the model (any order is covered by the theorems)"]
-ASSUMPTIONS = ["grids <= 24x24 in the correspondence, plus a few float16 fields on 46..60 x 46..60 grids (theorems: all sizes)",
+ASSUMPTIONS = ["grids <= 24x24 in the correspondence, plus a few float16 fields on 46..60 x 46..60 grids and long thin grids (1..3 x 300..900 and transposed, wrap counts past 127/255; thorough: one 1 x 74000 ramp past 32767) (theorems: all sizes)",
                "Itoh is required on the edges actually used (inside the mask, including periodic seam edges when wrap_around=True); values outside the mask are arbitrary",
                "tolerance on assembled outputs: 5e-4*max(1,max|model|) (the code forces float32 offsets: 2*pi*incs is rounded to float32 even for float64 input); all wrap-count comparisons are exact integers"]
 EXPLANATION = ("Theorems in Props/C17.lean are about Model/Unwrap.lean (run at Rat, units of pi, by the driver; proved at R with "
@@ -398,6 +398,8 @@ def field_tensor(case):
 
 def check_property(ctx, case, key_prefix, q, w, n, out, lab, ncomp, smooth, global_const=False, only=None):
     frac_tol = 5e-3 if case.get("dtype") == "float16" else 1e-3   # a wrong multiple of 2*pi shows as a fraction up to 0.5
+    # the code keeps 2*pi*incs in float32: absolute rounding grows with the size of the unwrapped values
+    frac_tol += 1e-7 * max((abs(v) for v in out), default=0.0)
     """the property on the real output `out` (list of floats, radians):
        (a) out - input in 2*pi*Z + one constant          (every input)
        (b) smooth input: out - truth constant on every connected mask component
@@ -449,7 +451,7 @@ def close(impl, model, tol):
     return d / scale, d <= tol * scale and len(impl) == len(model)
 
 
-def eval_unwrap_case(ctx, drv, case):
+def eval_unwrap_case(ctx, drv, case, report_case=None):
     import torch
     iu = _iu()
     H, W, wrap = case["H"], case["W"], case["wrap"]
@@ -477,12 +479,12 @@ def eval_unwrap_case(ctx, drv, case):
     ctx.dist[f"unwrap:outside:{case['outside']}"] += 1
     ctx.dist[f"unwrap:wrap_around:{wrap}"] += 1
     ctx.dist[f"unwrap:dtype:{case['dtype']}"] += 1
-    ctx.dist[f"unwrap:size:{'<=4' if N <= 4 else '<=64' if N <= 64 else '<=256' if N <= 256 else '<=576' if N <= 576 else '>2048'}"] += 1
+    ctx.dist[f"unwrap:size:{'<=4' if N <= 4 else '<=64' if N <= 64 else '<=256' if N <= 256 else '<=576' if N <= 576 else '>576'}"] += 1
     ctx.dist[f"unwrap:components:{min(ncomp, 5)}{'+' if ncomp >= 5 else ''}"] += 1
     ctx.dist[f"unwrap:really-wraps:{wraps}"] += 1
     if wraps:
         ctx.mark(("unwrap", case["kind"], case["mkind"], wrap, case["dtype"], H, W, min(ncomp, 4), min(nrange, 6)))
-    small_case = {k: case[k] for k in ("stream", "H", "W", "wrap", "mask", "mode", "dtype", "qn", "kind", "mkind", "outside")}
+    small_case = report_case or {k: case[k] for k in ("stream", "H", "W", "wrap", "mask", "mode", "dtype", "qn", "kind", "mkind", "outside")}
     if err is not None:
         pred_fail(ctx, "unwrap-raises", f"unwrap_phase_2d_torch raised {err}", small_case, observed=err, required="a result")
         return
@@ -499,7 +501,9 @@ def eval_unwrap_case(ctx, drv, case):
     redges = rec.edges[0]
     reqs = [dict(base, op="edges"),
             {"op": "uf", "N": N, "edges": redges},
-            dict(base, op="unwrap", order=[[a, b] for a, b, _ in redges])]
+            # the model's assemble is quadratic in N (List.getD): skipped above 4000 px, where the edge multiset and
+            # the integer union-find state / final offsets on the real order are still compared exactly
+            dict(base, op="unwrap", order=[[a, b] for a, b, _ in redges]) if N <= 4000 else {"op": "find_wrap", "a": "0/1", "b": "0/1"}]
     # one request at a time: pipelining large requests can dead-lock on the pipe buffers (qv.driver.ask_many)
     m_edges, m_uf, m_unw = [drv.ask(r) for r in reqs]
     for m in (m_edges, m_uf, m_unw):
@@ -515,6 +519,8 @@ def eval_unwrap_case(ctx, drv, case):
     if m_uf.get("ok") != impl_uf:
         disagree(ctx, "union-find", small_case, m_uf.get("ok", m_uf), impl_uf, note="parent/rank/offset/final offsets on the real edge order")
     # (iii) end to end
+    if N > 4000:
+        return
     mo = m_unw.get("ok")
     if mo is None:
         disagree(ctx, "end-to-end", small_case, m_unw, "a result")
@@ -579,6 +585,81 @@ def gen_half_case(rng):
     qn = quantise_itoh(rng, f, pairs, rng.uniform(0.3, 0.9))
     return {"stream": "unwrap", "H": H, "W": W, "wrap": wrap, "mask": None, "mode": "wrapped", "dtype": "float16",
             "qn": qn, "kind": kind, "mkind": "none", "outside": "smooth"}
+
+
+def gen_long_case(rng, variant, huge=False):
+    """long thin grid (1..3 rows x 300..900 columns, or transposed) with a steep monotone field whose wrap count
+    runs past 127 / 255 (huge: past 32767): compact description, expanded deterministically by expand_long"""
+    R = 1 if huge else rng.randint(1, 3)
+    if huge:
+        L = 74000
+    elif variant == "tent":
+        L = rng.randint(720, 900)
+    else:
+        L = rng.choice([rng.randint(310, 420), rng.randint(620, 900)])
+    return {"stream": "long", "R": R, "L": L, "transposed": (not huge) and rng.chance(0.5), "variant": variant,
+            "holes": (not huge) and R >= 2 and rng.chance(0.5), "dtype": rng.choice(["float32", "float64"]),
+            "seed": rng.next()}
+
+
+def expand_long(c):
+    from qv.prng import Rng
+    rng = Rng(c["seed"])
+    R, L, variant = c["R"], c["L"], c["variant"]
+    sign = 1 if rng.chance(0.5) else -1
+    lo, hi = (int(0.90 * DEN), int(0.97 * DEN)) if L > 10000 else (int(0.80 * DEN), int(0.97 * DEN))
+    half = L // 2
+    nsteps = half if variant == "tent" else L - 1
+    P = [0]
+    for _ in range(nsteps):
+        P.append(P[-1] + sign * rng.randint(lo, hi))
+    cut = None
+    if variant == "bounded":
+        wrap = False
+        base = P
+    elif variant == "tent":       # periodic: up to the middle and back down, smooth across the seam
+        wrap = True
+        base = [P[min(x, L - x)] for x in range(L)]
+    else:                         # "cut": periodic grid, a masked band cuts the ring; the ramp runs through the seam
+        wrap = True
+        k = rng.randint(1, 3)
+        c0 = rng.randint(0, L - 1)
+        cut = {(c0 + j) % L for j in range(k)}
+        start = (c0 + k) % L
+        base = [P[(x - start) % L] for x in range(L)]
+    off = rng.randint(-2 * DEN, 2 * DEN)
+    rowstep = rng.randint(-300, 300)
+    maskrc = [[1] * L for _ in range(R)]
+    use_mask = cut is not None or c["holes"]
+    if cut:
+        for r in range(R):
+            for x in cut:
+                maskrc[r][x] = 0
+    if c["holes"]:
+        x = rng.randint(2, 40)
+        while x < L - 2:
+            maskrc[rng.below(R)][x] = 0
+            x += rng.randint(3, 60)
+    if c["transposed"]:
+        H, W = L, R
+        qn = [base[x] + off + r * rowstep for x in range(L) for r in range(R)]
+        mask = [maskrc[r][x] for x in range(L) for r in range(R)]
+    else:
+        H, W = R, L
+        qn = [base[x] + off + r * rowstep for r in range(R) for x in range(L)]
+        mask = [maskrc[r][x] for r in range(R) for x in range(L)]
+    return {"stream": "unwrap", "H": H, "W": W, "wrap": wrap, "mask": mask if use_mask else None, "mode": "wrapped",
+            "dtype": c["dtype"], "qn": qn, "kind": "long-" + variant, "mkind": ("cut" if cut else "") + ("holes" if c["holes"] else "") or "none",
+            "outside": "smooth"}
+
+
+def eval_long_case(ctx, drv, c):
+    full = expand_long(c)
+    n = [wrap_q(Fr(v, DEN))[1] for v in full["qn"]]
+    span = max(n) - min(n)
+    ctx.dist[f"long:wrap-count-span:{'>32767' if span > 32767 else '>255' if span > 255 else '>127' if span > 127 else '<=127'}"] += 1
+    ctx.dist[f"long:variant:{c['variant']}{':transposed' if c['transposed'] else ''}"] += 1
+    eval_unwrap_case(ctx, drv, full, report_case=c)
 
 
 def gen_edges_case(rng):
@@ -821,7 +902,8 @@ def eval_bf_case(ctx, drv, case):
 
 # ---------------------------------------------------------------------------------------
 
-EVAL = {"unwrap": eval_unwrap_case, "edges": eval_edges_case, "uf": eval_uf_case, "bf": eval_bf_case}
+EVAL = {"unwrap": eval_unwrap_case, "edges": eval_edges_case, "uf": eval_uf_case, "bf": eval_bf_case,
+        "long": eval_long_case}
 
 
 def run(ctx):
@@ -847,6 +929,12 @@ def run(ctx):
             eval_unwrap_case(ctx, drv, gen_unwrap_case(ctx.rng.fork(3_000_000 + s), small=(s % 3 != 0)))
         for s in range(ctx.n(3, 30)):
             eval_unwrap_case(ctx, drv, gen_half_case(ctx.rng.fork(5_000_000 + s)))
+        # long thin grids: wrap counts beyond 127 / 255 (offsets must not be stored in a narrow integer type)
+        variants = ["bounded", "cut", "tent", "bounded"]
+        for s in range(ctx.n(6, 60)):
+            eval_long_case(ctx, drv, gen_long_case(ctx.rng.fork(6_000_000 + s), variants[s % 4]))
+        if ctx.thorough() and not ctx.search_mode:
+            eval_long_case(ctx, drv, gen_long_case(ctx.rng.fork(6_900_000), "bounded", huge=True))
         for s in range(n_bf):
             eval_bf_case(ctx, drv, gen_bf_case(ctx.rng.fork(4_000_000 + s)))
         for s in range(n_uf):
